@@ -194,7 +194,7 @@ PROPS["C02"] = {
                           "C02_flip_decision", "C02_flip_meets", "C02_flip_idempotent", "C02_string_literals_abstracted",
                           "C02_big_int_literals_abstracted", "C02_small_range",
                           "C02_sem_flip_and_commute_are_cosmetic", "C02_sem_commuted_operands_same_value"],
-    "level_text": "Kernel-checked on the Lean canonicaliser (which reproduces the real CanonicalIR byte for byte on 900+ functions on every run, from an export that carries no local, parameter, label or position names): each normalisation of the catalogue is a theorem about the function that implements it - self/closure references are printed without the function's name; a commutative BinOp prints the same text for both operand orders; a swap is recorded exactly for >=/> and prints the opposite test with exchanged successors, which is how the opposite spelling prints (and < / <= are fixed points); under the default policy every string literal and every integer literal outside [-16,16] is abstracted in EVERY usage context. Behavioural tie: generated functions (straight-line, branching, nested loops, slices, strings, calls, closures, recursion, methods) and a catalogue of hand-shaped specials on defined types, methods, labels and closures are refactored (rename locals/params/labels/function, reformat, reorder, flip, commute, big-int and string literal replacement; singly and composed) and the real fingerprints must be equal.",
+    "level_text": "Kernel-checked on the Lean canonicaliser (which reproduces the real CanonicalIR byte for byte on 900+ functions on every run, from an export that carries no local, parameter, label or position names): each normalisation of the catalogue is a theorem about the function that implements it - self/closure references are printed without the function's name; a commutative BinOp prints the same text for both operand orders; a swap is recorded exactly for >=/> and prints the opposite test with exchanged successors, which is how the opposite spelling prints (and < / <= are fixed points); under the default policy every string literal and every integer literal outside [-16,16] is abstracted in EVERY usage context. Behavioural tie: generated functions (straight-line, branching, nested loops, slices, strings, calls, closures, recursion, methods) and a catalogue of hand-shaped specials on defined types, methods, labels and closures are refactored (rename locals/params/labels/function, reformat, reorder, flip, commute, big-int and string literal replacement; singly and composed) and the real fingerprints must be equal. On the executable SSA semantics of Model/Canon/Sem.lean (a fragment of go/ssa: integers of every width, strings, booleans, read-only int slices, phis, branches, len/cap, conversions; tied to native execution of generated functions on every run) the two normalisations that change what is printed are proved COSMETIC: printing the opposite test with exchanged successors and exchanging the operands of a commutative operation leave the outcome unchanged for every argument vector and fuel (C02_sem_flip_and_commute_are_cosmetic, via the view theorem C03_sem_view_same_behaviour).",
     "level_note": "PARTIAL: whole-function invariance (that the local normal forms compose to equal fingerprints for every program) is validated on generated programs, not proved; go/ssa's lowering of the two spellings is trusted. One known finding: a flip whose test is between two constants is folded by go/ssa before the canonicaliser sees it.",
     "partial": "composition of the local normal forms over whole functions is validated, not proved",
     "trusted_base": ["go/ssa lowering (renaming and reformatting do not change the SSA; the exporter drops names)", "harness AST rewriter (cosmetic catalogue)"],
@@ -215,9 +215,9 @@ PROPS["C03"] = {
                           "C03_sem_swap_unsound_on_floats", "C03_sem_view_same_behaviour",
                           "C03_sem_view_needs_table_ids", "C03_sem_view_needs_if_last",
                           "C03_sem_fuel_monotone", "C03_sem_outcome_unique"],
-    "level_text": "Kernel-checked on the Lean canonicaliser: canonical names are injective (the traversal of a well-formed CFG lists no block twice, every block is rendered exactly once and no two blocks share a label; the register map never gives one name to two values); guards: operands are reordered only for + * == != & | ^ and + only on numbers; a branch swap is recorded only for integer|string operands whose comparison feeds nothing but that If (never floats); only len/cap/complex/real/imag/min/max are hoisted and len/cap never on a map or channel; recurrences of different loops, different external callees and different kept literals print differently; KeepAllLiteralsPolicy abstracts no string and no int64. Behavioural tie and the search for collisions: every generated function P is edited into Q by the behaviour-changing catalogue (operator, operand, branch, callee, index, loop variable/step/compare, small literal, deliberately invalid commute/flip/hoist, exchanged nested loop variables, callee of another package, exchanged select cases), BOTH are executed natively on an input table, and whenever the outputs differ the fingerprints must differ under KeepAllLiterals and under the default policy.",
-    "level_note": "PARTIAL: global injectivity of the canonical text (no two behaviourally different functions share it) is not proved - it needs a semantics of Go SSA; the theorems pin each normalisation's guard and the native-execution oracle searches for collisions.",
-    "partial": "no SSA semantics in Lean: collisions are searched by native execution, guards are proved",
+    "level_text": "Kernel-checked on the Lean canonicaliser: canonical names are injective (the traversal of a well-formed CFG lists no block twice, every block is rendered exactly once and no two blocks share a label; the register map never gives one name to two values); guards: operands are reordered only for + * == != & | ^ and + only on numbers; a branch swap is recorded only for integer|string operands whose comparison feeds nothing but that If (never floats); only len/cap/complex/real/imag/min/max are hoisted and len/cap never on a map or channel; recurrences of different loops, different external callees and different kept literals print differently; KeepAllLiteralsPolicy abstracts no string and no int64. Behavioural tie and the search for collisions: every generated function P is edited into Q by the behaviour-changing catalogue (operator, operand, branch, callee, index, loop variable/step/compare, small literal, deliberately invalid commute/flip/hoist, exchanged nested loop variables, callee of another package, exchanged select cases), BOTH are executed natively on an input table, and whenever the outputs differ the fingerprints must differ under KeepAllLiterals and under the default policy. SEMANTIC soundness of the guards on the executable SSA semantics (Model/Canon/Sem.lean): isCommutative implies the operands can be exchanged (refuted for string +), isSafeToSwap implies `<` is the negation of `>=` (refuted for floats), and the whole VIEW of a function - what the canonical text shows after all recorded swaps and reorderings - behaves like the function for every argument vector and fuel (C03_sem_view_same_behaviour; well-formedness conditions found by two failed proof attempts are part of wfCheck).",
+    "level_note": "PARTIAL: global injectivity of the canonical text (no two behaviourally different functions share it) is not proved: the SSA semantics covers a fragment (no memory, no calls but len/cap, floats compare-only), and the step from equal TEXT to equal view is covered by the naming-injectivity theorems only; the theorems pin each normalisation's guard, prove the guards sound on the fragment, and the native-execution oracle searches for collisions.",
+    "partial": "SSA semantics for a fragment only; equal text => equal structure not proved: collisions are searched by native execution, guards are proved sound on the fragment",
     "trusted_base": ["the Go compiler and runtime (native execution of P and Q)", "go/ssa"],
 }
 PROPS["C04"] = {
@@ -236,9 +236,9 @@ PROPS["C04"] = {
                           "C04_enforce_phi_edges_correspond", "C04_enforce_entry",
                           "C04_zipper_verdict_sound", "C04_zipper_verdict_needs_cfg_consistency",
                           "C04_zipper_verdict_rejects_exchanged_returns"],
-    "level_text": "Kernel-checked decision logic of CompareFunctions: the verdict is `preserved` iff the fingerprints are equal, or neither side is oversized and the zipper left nothing added and nothing removed; identical copies are preserved; an oversized function is never waved through by the zipper; any unmatched instruction means modified; zipper-preserved pairs have equally many instructions (bookkeeping theorems of C09). Behavioural tie: for every generated (old,new) pair whose native outputs differ on some input, and for the specials (exchanged if/else bodies, oversized edit, callee swap, select, nested loop variables), the real cli.CompareFunctions / ComputeDiff status must not be preserved; every function compared with a separately compiled copy of itself must be preserved with nothing added or removed.",
-    "level_note": "PARTIAL: that fingerprint equality and an empty zipper difference imply equal behaviour is C03's open half; here it is searched by native execution. The zipper's equivalence test is modelled and tied decision by decision (trace hook); theorems say what a positive decision guarantees (same operator fields; every operand already mapped to its partner or a non-linkable value with the same canonical text; swaps only for commutative numeric ops and ==/!=).",
-    "partial": "soundness of the two routes to `preserved` rests on C03 / the zipper's equivalence relation, searched by native execution",
+    "level_text": "Kernel-checked decision logic of CompareFunctions: the verdict is `preserved` iff the fingerprints are equal, or neither side is oversized and the zipper left nothing added and nothing removed; identical copies are preserved; an oversized function is never waved through by the zipper; any unmatched instruction means modified; zipper-preserved pairs have equally many instructions (bookkeeping theorems of C09). Behavioural tie: for every generated (old,new) pair whose native outputs differ on some input, and for the specials (exchanged if/else bodies, oversized edit, callee swap, select, nested loop variables), the real cli.CompareFunctions / ComputeDiff status must not be preserved; every function compared with a separately compiled copy of itself must be preserved with nothing added or removed. SEMANTIC: on the executable SSA semantics a control-flow respecting, order-preserving one-to-one matching of equal operations (isoCheck) implies equal outcomes for every argument vector (C04_sem_iso_same_behaviour), and what the zipper itself has checked when it says `preserved` - every pair equivalent, enforceControlFlow undid nothing (Model/ZipperCF, tied pair by pair through a hook), go/ssa's block shape and consistent edge lists - implies it (C04_zipper_verdict_sound; without the edge-list condition refuted, C04_zipper_verdict_needs_cfg_consistency). Both predicates are evaluated on the REAL zipper's final maps whenever it reports a pair of the fragment as preserved.",
+    "level_note": "PARTIAL: that fingerprint equality implies equal behaviour is C03's open half; that an empty zipper difference does is proved on the interpreter's fragment under hypotheses evaluated at run time (the equivalence test implies instrMatches; go/ssa's shape), outside the fragment it is searched by native execution. The zipper's equivalence test is modelled and tied decision by decision (trace hook); theorems say what a positive decision guarantees (same operator fields; every operand already mapped to its partner or a non-linkable value with the same canonical text; swaps only for commutative numeric ops and ==/!=).",
+    "partial": "soundness of the fingerprint route rests on C03; the structural route is proved on the SSA fragment under run-time-checked hypotheses, searched by native execution elsewhere",
     "trusted_base": ["the Go compiler and runtime (native execution)", "diff.Zipper's areEquivalent (exercised, not modelled)"],
 }
 PROPS["C16"] = {
